@@ -243,6 +243,43 @@ Qed.
 Lemma build_servers_shard : forall svs z ms i r, Forall (fun a => a_shard a = z) (build_servers z ms i r svs).
 Proof. induction svs as [|sv rest IH]; intros; cbn [build_servers]; constructor; [reflexivity|apply IH]. Qed.
 
+Lemma shard_validate_mirrors : forall sh m, shard_validate sh = true -> In m (sh_mirrors sh) ->
+  mi_target m < Z.of_nat (length (sh_servers sh)).
+Proof.
+  intros sh m V Hin. unfold shard_validate in V.
+  destruct (sh_servers sh) eqn:S; [discriminate|]. rewrite <- S in V.
+  destruct (existsb _ (sh_servers sh)); [discriminate|].
+  destruct (1 <? count_primary (sh_servers sh)); [discriminate|].
+  destruct (negb _); [discriminate|].
+  rewrite forallb_forall in V. specialize (V m Hin). apply negb_true_iff in V. apply Z.leb_gt in V.
+  rewrite <- S. exact V.
+Qed.
+
+Lemma build_servers_mirrors : forall svs z ms i0 r0 i a,
+  nth_error (build_servers z ms i0 r0 svs) i = Some a ->
+  a_mirrors a = mirrors_for z (a_role a) (a_replica_number a) (i0 + i) 0 ms.
+Proof.
+  induction svs as [|sv rest IH]; intros z ms i0 r0 i a H; cbn [build_servers] in H.
+  - destruct i; discriminate.
+  - destruct i as [|i]; cbn [nth_error] in *.
+    + inversion H; subst. cbn. rewrite Nat.add_0_r. reflexivity.
+    + apply IH in H. rewrite H. f_equal. lia.
+Qed.
+
+Lemma mirrors_for_in : forall ms z r repl target base j m,
+  nth_error ms j = Some m -> mi_target m = Z.of_nat target ->
+  In {| ma_host := mi_host m; ma_port := mi_port m; ma_role := r; ma_index := (base + j)%nat;
+        ma_replica_number := repl; ma_shard := z |} (mirrors_for z r repl target base ms).
+Proof.
+  induction ms as [|x rest IH]; intros z r repl target base j m H T.
+  - destruct j; discriminate.
+  - cbn [mirrors_for]. destruct j as [|j]; cbn [nth_error] in H.
+    + inversion H; subst x. rewrite T, Z.eqb_refl. left. rewrite Nat.add_0_r. reflexivity.
+    + specialize (IH z r repl target (S base) j m H T).
+      replace (S base + j)%nat with (base + S j)%nat in IH by lia.
+      destruct (mi_target x =? Z.of_nat target); [right|]; exact IH.
+Qed.
+
 Lemma eff_nonzero : forall u p g, is_some_zero u = false -> is_some_zero p = false -> (g =? 0) = false -> (eff u p g =? 0) = false.
 Proof. intros [u|] [p|] g; cbn; intros; assumption. Qed.
 
@@ -351,6 +388,7 @@ Section Explicit.
   Variables (p : pool) (u : user) (sl : list (Z * (str * shard))) (dr : option role).
   Hypothesis F : pool_facts p sl.
   Hypothesis DS : match p_default_shard p with DShard d => 0 <= d < Z.of_nat (length (p_shards p)) | _ => True end.
+  Hypothesis MT : Forall (fun ks => Forall (fun m => 0 <= mi_target m) (sh_mirrors (snd ks))) (p_shards p).
   Let bp := explicit p u sl dr.
   Let n := length (p_shards p).
 
@@ -415,17 +453,39 @@ Section Explicit.
 
   Lemma ex_candidates : forall sh, (sh < n)%nat ->
     exists k shc, In (k, shc) (p_shards p) /\ parse_usize k = Some (Z.of_nat sh) /\
-      forall r, map server_of (candidates bp (Z.of_nat sh) r) = filter (fun sv => role_matches r (sv_role sv)) (sh_servers shc).
+      (forall r, map server_of (candidates bp (Z.of_nat sh) r) = filter (fun sv => role_matches r (sv_role sv)) (sh_servers shc)) /\
+      (forall j m, nth_error (sh_mirrors shc) j = Some m ->
+         exists a, address_at bp sh (Z.to_nat (mi_target m)) = Some a /\
+           In {| ma_host := mi_host m; ma_port := mi_port m; ma_role := a_role a; ma_index := j;
+                 ma_replica_number := a_replica_number a; ma_shard := Z.of_nat sh |} (a_mirrors a)).
   Proof.
     intros sh H. unfold n in H. rewrite <- (pf_len _ _ F) in H.
     destruct (nth_error sl sh) as [zk|] eqn:E; [|apply nth_error_None in E; lia].
     assert (Hin : In zk sl) by (eapply nth_error_In; eassumption).
     assert (K : key_ok zk).
     { pose proof (pf_keys _ _ F) as FA. rewrite Forall_forall in FA. apply FA. exact Hin. }
-    destruct K as [P _]. rewrite (facts_nth _ _ _ _ F E) in P.
+    destruct K as [P V]. pose proof (facts_nth _ _ _ _ F E) as FZ. rewrite FZ in P.
     destruct zk as [z [k shc]]. cbn [fst snd] in *.
-    exists k, shc. split; [|split; [exact P|]].
-    - apply (Permutation_in _ (pf_perm _ _ F)). apply in_map_iff. exists (z, (k, shc)). split; [reflexivity|exact Hin].
+    assert (HinP : In (k, shc) (p_shards p)).
+    { apply (Permutation_in _ (pf_perm _ _ F)). apply in_map_iff. exists (z, (k, shc)). split; [reflexivity|exact Hin]. }
+    exists k, shc. split; [exact HinP|]. split; [exact P|]. split.
+    2:{ intros j m Hm.
+        assert (Hmi : In m (sh_mirrors shc)) by (eapply nth_error_In; eassumption).
+        pose proof (shard_validate_mirrors shc m V Hmi) as UB.
+        assert (LB : 0 <= mi_target m).
+        { rewrite Forall_forall in MT. specialize (MT (k, shc) HinP). cbn [snd] in MT.
+          rewrite Forall_forall in MT. apply MT. exact Hmi. }
+        set (t := Z.to_nat (mi_target m)).
+        assert (Ht : (t < length (build_servers z (sh_mirrors shc) 0 0 (sh_servers shc)))%nat)
+          by (rewrite build_servers_length; unfold t; lia).
+        destruct (nth_error (build_servers z (sh_mirrors shc) 0 0 (sh_servers shc)) t) as [a|] eqn:A;
+          [|apply nth_error_None in A; lia].
+        exists a. split.
+        - unfold address_at. cbn [bp explicit bp_addresses]. rewrite nth_error_map, E. cbn [option_map].
+          unfold row_of. cbn [fst snd]. exact A.
+        - rewrite (build_servers_mirrors _ _ _ _ _ _ _ A). subst z.
+          apply (mirrors_for_in (sh_mirrors shc) (Z.of_nat sh) (a_role a) (a_replica_number a) (0 + t) 0 j m Hm).
+          unfold t. cbn [Nat.add]. lia. }
     - intro r. unfold candidates. rewrite filter_comm, ex_filter_shard.
       cbn [bp explicit bp_addresses].
       rewrite (nth_error_nth _ _ _ (eq_trans (nth_error_map _ _ _) (f_equal (option_map row_of) E))).
@@ -498,8 +558,9 @@ Section Explicit.
     split; [apply ex_indices_ok|]. split; [apply ex_address_at|]. split; [apply ex_first|].
     split; [apply ex_by_address|].
     split.
-    { intros sh H. destruct (ex_candidates sh H) as [k [shc [H1 [H2 H3]]]].
-      exists k, shc. split; [exact H1|]. split; [exact H2|]. intro r. split; [apply H3|apply ex_get_some; exact H]. }
+    { intros sh H. destruct (ex_candidates sh H) as [k [shc [H1 [H2 [H3 H4]]]]].
+      exists k, shc. split; [exact H1|]. split; [exact H2|]. split; [|exact H4].
+      intro r. split; [apply H3|apply ex_get_some; exact H]. }
     split; [apply ex_get_refused|]. split; [reflexivity|apply ex_get_default].
   Qed.
 End Explicit.
@@ -567,9 +628,9 @@ Proof.
   destruct (role_setting_of_ok _ (ps_role _ PS)) as [dr DR].
   exists sl, dr.
   assert (DS : match p_default_shard p with DShard d => 0 <= d < Z.of_nat (length (p_shards p)) | _ => True end).
-  { pose proof (default_shard_ok p V) as D. unfold typed_pool in T.
+  { pose proof (default_shard_ok p V) as D. destruct T as [T TM].
     destruct (p_default_shard p) as [d| |]; try exact I. split; assumption. }
-  split; [|split; [exact F|apply explicit_servable; assumption]].
+  split; [|split; [exact F|apply explicit_servable; [exact F|exact DS|exact TM]]].
   unfold build_pool_user. destruct (pf_sorted _ _ F) as [kl [K [E L]]]. rewrite K, <- E.
   unfold server_check. rewrite AQ.
   rewrite (builder_check_none c p u G PS U), (build_shards_ok sl (pf_keys _ _ F)), DR.
@@ -902,7 +963,15 @@ Proof.
   destruct (sh_servers sh) eqn:S; [reflexivity|]. rewrite <- S.
   destruct (existsb _ (sh_servers sh)); [reflexivity|].
   destruct (1 <? count_primary (sh_servers sh)); [reflexivity|].
-  apply Nat.eqb_neq. rewrite S, E. pose proof (distinct_lt l1 s l2 s' l3 D). lia.
+  assert (X : Nat.eqb (length (distinct (sh_servers sh))) (length (sh_servers sh)) = false).
+  { apply Nat.eqb_neq. rewrite S, E. pose proof (distinct_lt l1 s l2 s' l3 D). lia. }
+  rewrite X. reflexivity.
+Qed.
+
+Lemma shard_mirror_out_of_range : forall sh m, In m (sh_mirrors sh) ->
+  Z.of_nat (length (sh_servers sh)) <= mi_target m -> shard_validate sh = false.
+Proof.
+  intros sh m Hin H. apply not_true_false. intro V. pose proof (shard_validate_mirrors sh m V Hin). lia.
 Qed.
 
 (* users *)
